@@ -1,6 +1,7 @@
 //! Generators. Every generator is a plain function of a `Choices`.
 
 pub mod abi;
+pub mod clean;
 pub mod syn;
 pub mod wild;
 
